@@ -1,21 +1,20 @@
 /- Driver command: disassemble, print the listing, re-assemble it. -/
 import EtkVerif.Driver.AsmCmd
 import EtkVerif.Disasm.Model
+import EtkVerif.Asm.Listing
 namespace EtkVerif.Driver
 open EtkVerif Asm
 
-/-- `lst <hex>` -/
+/-- `lst <hex> [<piece sizes>]`: the pieces the input is written in cannot matter (T-dis), so they are ignored -/
 def cmdLst (args : List String) : String :=
   match args with
-  | [h] =>
+  | h :: _ =>
     match unhex h with
     | none => "bad-op"
     | some bytes =>
       let t := Gen.cancun
       let (items, tail) := Disasm.decodeAll t bytes
-      let line (i : Disasm.Item) : List Nat :=
-        (Ops.rowOf t i.2.op).mnem ++ (if i.2.imm.isEmpty then [] else [32, 48, 120] ++ (hx i.2.imm).toList.map Char.toNat) ++ [10]
-      let text := items.flatMap line
+      let text := Listing.listing (items.map (·.2))
       let offs := ",".intercalate (items.map (fun i => toString i.1))
       let fin := if tail.2.isEmpty then 1 else 0
       let res := match parseAsm text with
@@ -27,7 +26,7 @@ def cmdLst (args : List String) : String :=
             | _ :: _ => none
           match raws nodes with
           | none => "asm=err Io"
-          | some rs => match assemble (fun k => k) asmFuel {} (RawOps.ofList rs) with
+          | some rs => match assemble (fun k => k) (asmFuelFor text.length) {} (RawOps.ofList rs) with
             | .ok (out, _) => s!"asm=ok {hx out}"
             | .error e => "asm=" ++ showAsmErr e
       s!"offs={offs} fin={fin} {res}"
